@@ -75,13 +75,20 @@ public:
 
     template <typename D, bool TR>
     virtual_2d_locator(virtual_2d_locator<D, TR> const &loc, coord_t y_step)
-        : y_pos_(loc.pos(), point_t(loc.step().x, loc.step().y * y_step), loc.deref_fn())
+        : y_pos_(loc.pos()
+        // the y axis of a transposed locator runs along the x coordinate of the function
+        , IsTransposed ?
+            point_t(loc.step().x * y_step, loc.step().y) :
+            point_t(loc.step().x, loc.step().y * y_step)
+        , loc.deref_fn())
     {}
 
     template <typename D, bool TR>
     virtual_2d_locator(virtual_2d_locator<D, TR> const& loc, coord_t x_step, coord_t y_step, bool transpose = false)
         : y_pos_(loc.pos()
-        , transpose ?
+        // x_step and y_step refer to the axes of the new locator: whether they scale the x or the y
+        // coordinate of the function depends on the new locator being transposed, not on this step transposing
+        , IsTransposed ?
             point_t(loc.step().x * y_step, loc.step().y * x_step) :
             point_t(loc.step().x * x_step, loc.step().y * y_step)
         , loc.deref_fn())
